@@ -372,7 +372,7 @@ def shrink_candidates(plan):
     for i, o in enumerate(ops):
         s = o.get("sim")
         if s:
-            for k, v in (("strategy", "serial-identity"), ("team_shortfall", False), ("dirty_heap", False), ("dirty_caller_buffers", False), ("misaligned_caller_buffers", False), ("adjacent_caller_buffers", False), ("main_first", False)):
+            for k, v in (("strategy", "serial-identity"), ("team_shortfall", False), ("dirty_heap", False), ("dirty_caller_buffers", False), ("misaligned_caller_buffers", False), ("adjacent_caller_buffers", False), ("main_first", False), ("host_team", 0)):
                 if s.get(k) != v:
                     q = copy.deepcopy(plan)
                     q["plan"][i]["sim"][k] = v
